@@ -22,22 +22,22 @@ RULE = ("P1/P2: the optimizer recurrences are TLA+ state machines over exact rat
         "overflows while its gradient does not), the number of objective evaluations (= steps taken: stops early only "
         "when nothing changed) and two runs bit for bit, and the same call on an optimizer object that has already "
         "solved two other problems (one parameter more, two fewer) bit for bit with the same number of evaluations (LM "
-        "likewise). Configuration entry points: Adam::default is the published setting (0.001, 0.9, 0.999, 1e-8), "
-        "with_stepsize changes the step size only, set_stepsize (Adam, SGD; on an object that has already run) equals "
-        "construction - bit for bit on an objective whose gradients are of the order of epsilon. LM: for 18 linear-in-"
-        "parameter problems (wide and short abscissa windows, 1..3 parameters) TLC computes the exact least-squares "
-        "solution and s^2 (J^T J)^-1; the harness runs LM from two poor starts: parameters (1e-7, or an excess RSS "
-        "within 64 roundings of the minimal RSS where the problem is too ill-conditioned for LM's own acceptance test "
-        "to resolve more), covariance (1e-6), RSS not above the start (windows on both sides and on one side of the "
-        "origin), and LM::default() from a start at +-1000 reaches the solution to 2e-5; P3: exponential / logistic / "
-        "short-window line fits with noise, and overflow-prone logistic-growth models L e^z/(1+e^z) from flat starts "
-        "with budgets 1, 2, 5, 100 (descent and finiteness only), every kind also in nano (2^-30) and mega (2^25) units"
-        " of the response with unit-consistent tolerances and budgets 1, 2, 3, 5, 100, and budget sweeps - twelve non-"
-        "linear problems (six from mildly poor starts, six textbook problems on a one-sided window from far-off starts "
-        "that force rejected steps), each run with every step budget 1..8, so that the budget runs out on accepted and "
-        "on rejected steps - recorded and validated by TLC (Trace_OptimLM): descent, finiteness, covariance shape, and "
-        "the covariance certificate (J^T J) C = s^2 I at the returned point in backward-error units (<= 64, measured <="
-        " 1).")
+        "likewise), and on a clone of the configured optimizer. Configuration entry points: Adam::default is the "
+        "published setting (0.001, 0.9, 0.999, 1e-8), with_stepsize changes the step size only, set_stepsize (Adam, "
+        "SGD; on an object that has already run) equals construction - bit for bit on an objective whose gradients are "
+        "of the order of epsilon. LM: for 18 linear-in-parameter problems (wide and short abscissa windows, 1..3 "
+        "parameters) TLC computes the exact least-squares solution and s^2 (J^T J)^-1; the harness runs LM from two "
+        "poor starts: parameters (1e-7, or an excess RSS within 64 roundings of the minimal RSS where the problem is "
+        "too ill-conditioned for LM's own acceptance test to resolve more), covariance (1e-6), RSS not above the start "
+        "(windows on both sides and on one side of the origin), and LM::default() from a start at +-1000 reaches the "
+        "solution to 2e-5; P3: exponential / logistic / short-window line fits with noise, and overflow-prone logistic-"
+        "growth models L e^z/(1+e^z) from flat starts with budgets 1, 2, 5, 100 (descent and finiteness only), every "
+        "kind also in nano (2^-30) and mega (2^25) units of the response with unit-consistent tolerances and budgets 1,"
+        " 2, 3, 5, 100, and budget sweeps - twelve non-linear problems (six from mildly poor starts, six textbook "
+        "problems on a one-sided window from far-off starts that force rejected steps), each run with every step budget"
+        " 1..8, so that the budget runs out on accepted and on rejected steps - recorded and validated by TLC "
+        "(Trace_OptimLM): descent, finiteness, covariance shape, and the covariance certificate (J^T J) C = s^2 I at "
+        "the returned point in backward-error units (<= 64, measured <= 1).")
 ASSUMPTIONS = ["exactness horizon: k <= 6 (SGD) / 4 (Adam) steps because of 32-bit integers in TLC; k up to 200/2000 of the quantifier is not reached",
                "objectives restricted to those whose recurrences stay rational (quadratics for SGD, weighted absolute values for Adam)"]
 EXHAUSTIVE = True
